@@ -275,3 +275,774 @@ Proof. intros st q I. unfold list_sigs, predecessors. apply list_loop_spec; auto
 Lemma list_sigs_log : forall st q, Inv st ->
   Forall (fun g => exists e, In e st /\ dg_of e = g /\ (d_sz (e_d e) <= capM)%Z) (snd (list_sigs st q)).
 Proof. intros st q I. unfold list_sigs, predecessors. apply list_loop_log; auto. apply incl_refl. Qed.
+
+(* ---------- steps: invariant, growth, agreement with the reference ---------- *)
+Lemma log_ok_of : forall st lg, Inv st ->
+  Forall (fun g => exists e, In e st /\ dg_of e = g /\ (d_sz (e_d e) <= capM)%Z) lg ->
+  log_ok st lg = true.
+Proof.
+  intros st lg [ND _] H. unfold log_ok. apply forallb_forall. intros g Hg.
+  rewrite Forall_forall in H. destruct (H g Hg) as (e & Hi & He & Hs). subst g.
+  rewrite (lookup_in st e ND Hi). now apply Z.leb_le.
+Qed.
+
+Lemma cfg_push : forall st, lookup_dg st DG_EMPTY = None ->
+  push1 st cfg_desc cfg_content = (mk_entry cfg_desc cfg_content :: st, POk).
+Proof. intros st H. unfold push1. cbn [d_dg cfg_desc]. rewrite H. reflexivity. Qed.
+
+Lemma add_absent_none : forall st e, lookup_dg st (dg_of e) = None -> add_absent st e = e :: st.
+Proof. intros st e H. unfold add_absent. unfold dg_of in H. now rewrite H. Qed.
+
+Lemma add_absent_some : forall st e, lookup_dg st (dg_of e) <> None -> add_absent st e = st.
+Proof. intros st e H. unfold add_absent. unfold dg_of in H. destruct (lookup_dg st (d_dg (e_d e))); congruence. Qed.
+
+Lemma created_ok_ensure : forall pa now v a, ensure_created pa now v = Some a -> created_ok pa a = true.
+Proof.
+  intros pa now v a H. unfold ensure_created in H. unfold created_ok.
+  destruct (has_key K_CREATED pa).
+  - destruct v; inversion H; subst. apply ann_eqb_refl.
+  - inversion H; subst. cbn. apply ann_eqb_refl.
+Qed.
+
+Lemma ensure_none : forall pa now v, ensure_created pa now v = None ->
+  has_key K_CREATED pa && negb v = true.
+Proof.
+  intros pa now v H. unfold ensure_created in H. destruct (has_key K_CREATED pa); [|discriminate].
+  destruct v; [discriminate|reflexivity].
+Qed.
+
+Definition grows (st st1 : state) : Prop := exists l, st1 = l ++ st.
+
+Lemma grows_refl : forall st, grows st st.
+Proof. intros st. exists []. reflexivity. Qed.
+
+Lemma grows_trans : forall a b c, grows a b -> grows b c -> grows a c.
+Proof. intros a b c [l1 ->] [l2 ->]. exists (l2 ++ l1). now rewrite app_assoc. Qed.
+
+Lemma grows_cons : forall st e, grows st (e :: st).
+Proof. intros st e. exists [e]. reflexivity. Qed.
+
+Lemma push_sig_sim : forall st p, Inv st -> wf_op (OpPush p) = true ->
+  rcheck st (OpPush p) (snd (push_sig st p)) = true /\
+  radv st (OpPush p) (snd (push_sig st p)) = fst (push_sig st p) /\
+  Inv (fst (push_sig st p)) /\ grows st (fst (push_sig st p)).
+Proof.
+  intros st p I W. cbn in W. apply andb_true_iff in W as [W1 W2].
+  apply Z.leb_le in W1. apply Z.leb_le in W2.
+  unfold push_sig.
+  destruct (push1_spec st (blob_desc p) (p_bc p)) as [(L & ->)|[(_ & S & _)|[(L & S & U & ->)|(L & S & U & ->)]]].
+  - (* envelope already stored *)
+    change (d_dg (blob_desc p)) with (p_bdg p) in L.
+    cbn [fst snd pres_code]. split; [|split; [reflexivity|split; [exact I|apply grows_refl]]].
+    cbn. destruct (lookup_dg st (p_bdg p)); [reflexivity|congruence].
+  - exfalso. apply S. reflexivity.
+  - (* envelope pushed under a manifest media type that does not parse *)
+    cbn [fst snd pres_code]. split; [|split; [|split]].
+    + cbn. apply successors_none_graph in U. cbn [d_mt blob_desc] in U.
+      destruct (p_mt p =? MT_NONE) eqn:E; [discriminate U|]. rewrite U. now rewrite orb_true_r.
+    + change (radv st (OpPush p) (RPush 3 d0 d0 [])) with (add_absent st (mk_entry (blob_desc p) (p_bc p))).
+      apply add_absent_none. exact L.
+    + apply Inv_cons; auto.
+    + apply grows_cons.
+  - (* envelope stored *)
+    set (st1 := mk_entry (blob_desc p) (p_bc p) :: st).
+    assert (I1 : Inv st1) by (apply Inv_cons; auto).
+    assert (TAIL : forall st2, st2 = add_absent st1 (mk_entry cfg_desc cfg_content) -> Inv st2 -> grows st1 st2 ->
+      let res := match ensure_created (p_ann p) (p_now p) (p_cvalid p) with
+           | Some a' =>
+               let (st3, r3) := push1 st2 (man_desc p) (man_content (p_msz p) (p_subj p) (blob_desc p) a') in
+               match r3 with
+               | POk | PExists => (st3, RPush 0 (blob_desc p) (man_desc p) a')
+               | _ => (st3, RPush (pres_code r3) d0 d0 [])
+               end
+           | None => (st2, RPush 4 d0 d0 [])
+           end in
+      rcheck st (OpPush p) (snd res) = true /\ radv st (OpPush p) (snd res) = fst res /\
+      Inv (fst res) /\ grows st (fst res)).
+    { intros st2 E2 I2 G2.
+      destruct (ensure_created (p_ann p) (p_now p) (p_cvalid p)) as [a'|] eqn:EC.
+      + destruct (push1_spec st2 (man_desc p) (man_content (p_msz p) (p_subj p) (blob_desc p) a'))
+          as [(LM & ->)|[(_ & SM & _)|[(_ & _ & UM & _)|(LM & SM & UM & ->)]]].
+        * (* manifest already there *)
+          cbn [fst snd]. split; [|split; [|split]].
+          -- cbn. rewrite !desc_eqb_refl. cbn. eapply created_ok_ensure; eauto.
+          -- change (radv st (OpPush p) (RPush 0 (blob_desc p) (man_desc p) a')) with
+               (add_absent (add_absent (add_absent st (mk_entry (blob_desc p) (p_bc p))) (mk_entry cfg_desc cfg_content))
+                  (mk_entry (man_desc p) (man_content (p_msz p) (p_subj p) (blob_desc p) a'))).
+             rewrite (add_absent_none st (mk_entry (blob_desc p) (p_bc p)) L). fold st1. rewrite <- E2.
+             apply add_absent_some. exact LM.
+          -- exact I2.
+          -- eapply grows_trans; [apply grows_cons|exact G2].
+        * exfalso. apply SM. reflexivity.
+        * discriminate UM.
+        * cbn [fst snd]. split; [|split; [|split]].
+          -- cbn. rewrite !desc_eqb_refl. cbn. eapply created_ok_ensure; eauto.
+          -- change (radv st (OpPush p) (RPush 0 (blob_desc p) (man_desc p) a')) with
+               (add_absent (add_absent (add_absent st (mk_entry (blob_desc p) (p_bc p))) (mk_entry cfg_desc cfg_content))
+                  (mk_entry (man_desc p) (man_content (p_msz p) (p_subj p) (blob_desc p) a'))).
+             rewrite (add_absent_none st (mk_entry (blob_desc p) (p_bc p)) L). fold st1. rewrite <- E2.
+             apply add_absent_none. exact LM.
+          -- apply Inv_cons; auto.
+          -- eapply grows_trans; [apply grows_cons|]. eapply grows_trans; [exact G2|apply grows_cons].
+      + cbn [fst snd]. split; [|split; [|split]].
+        * cbn. rewrite (ensure_none _ _ _ EC). now rewrite orb_true_r.
+        * change (radv st (OpPush p) (RPush 4 d0 d0 [])) with
+            (add_absent (add_absent st (mk_entry (blob_desc p) (p_bc p))) (mk_entry cfg_desc cfg_content)).
+          rewrite (add_absent_none st (mk_entry (blob_desc p) (p_bc p)) L). fold st1. now rewrite <- E2.
+        * exact I2.
+        * eapply grows_trans; [apply grows_cons|exact G2]. }
+    destruct (lookup_dg st1 DG_EMPTY) eqn:LC.
+    + apply (TAIL st1); [|exact I1|apply grows_refl].
+      symmetry. apply add_absent_some.
+      change (dg_of (mk_entry cfg_desc cfg_content)) with DG_EMPTY. rewrite LC. discriminate.
+    + rewrite (cfg_push st1 LC).
+      apply (TAIL (mk_entry cfg_desc cfg_content :: st1)).
+      * symmetry; apply add_absent_none; exact LC.
+      * apply Inv_cons; auto; cbn; lia.
+      * apply grows_cons.
+Qed.
+
+Lemma raw_sim : forall st d c, Inv st -> wf_op (OpRaw d c) = true ->
+  rcheck st (OpRaw d c) (snd (step st (OpRaw d c))) = true /\
+  radv st (OpRaw d c) (snd (step st (OpRaw d c))) = fst (step st (OpRaw d c)) /\
+  Inv (fst (step st (OpRaw d c))) /\ grows st (fst (step st (OpRaw d c))).
+Proof.
+  intros st d c I W. cbn in W. apply Z.leb_le in W. cbn [step].
+  destruct (push1_spec st d c) as [(L & ->)|[(L & S & ->)|[(L & S & U & ->)|(L & S & U & ->)]]];
+    cbn [fst snd pres_code].
+  - split; [reflexivity|split; [reflexivity|split; [exact I|apply grows_refl]]].
+  - split; [reflexivity|split; [reflexivity|split; [exact I|apply grows_refl]]].
+  - split; [reflexivity|]. split; [|split; [apply Inv_cons; auto|apply grows_cons]].
+    change (radv st (OpRaw d c) (RRaw 3)) with (add_absent st (mk_entry d c)).
+    apply add_absent_none. exact L.
+  - split; [reflexivity|]. split; [|split; [apply Inv_cons; auto|apply grows_cons]].
+    change (radv st (OpRaw d c) (RRaw 0)) with (add_absent st (mk_entry d c)).
+    apply add_absent_none. exact L.
+Qed.
+
+Lemma list_sim : forall st q, Inv st -> rcheck st (OpList q) (snd (step st (OpList q))) = true.
+Proof.
+  intros st q I. cbn [step].
+  pose proof (list_sigs_spec st q I) as HS. pose proof (list_sigs_log st q I) as HL.
+  destruct (list_sigs st q) as [r lg]. cbn [fst snd] in *.
+  destruct (existsb (oversize_ref q) st) eqn:O; subst r; cbn [snd rcheck].
+  - rewrite (log_ok_of st lg I HL), O. reflexivity.
+  - rewrite (log_ok_of st lg I HL), O. cbn. apply perm_eqb_refl. apply item_eqb_refl.
+Qed.
+
+Local Opaque capM capB.
+Local Arguments Z.ltb : simpl never.
+Local Arguments Z.leb : simpl never.
+Local Arguments N.eqb : simpl never.
+
+Lemma fetch_sim : forall st d, rcheck st (OpFetch d) (snd (step st (OpFetch d))) = true.
+Proof.
+  intros st d. cbn [step]. unfold fetch_sig.
+  destruct (is_sigmt (d_mt d)) eqn:M; cbn [negb]; [|cbn; now rewrite M].
+  destruct (capM <? d_sz d)%Z eqn:Cm; [cbn; now rewrite M, Cm|].
+  destruct (fetch_all st d) as [c|] eqn:F; [|cbn; rewrite M, Cm, F; cbn; now rewrite N.eqb_refl].
+  destruct (parsed (d_mt d) c) eqn:Pc; cbn [negb]; [|cbn; rewrite M, Cm, F, Pc; cbn; now rewrite N.eqb_refl].
+  destruct (blobs_of (d_mt d) c) as [|b [|b2 bs]] eqn:Bl.
+  - cbn. rewrite M, Cm, F, Pc, Bl. cbn. now rewrite N.eqb_refl.
+  - destruct (capB <? d_sz b)%Z eqn:Cb; [cbn; rewrite M, Cm, F, Pc, Bl, Cb; cbn; now rewrite N.eqb_refl|].
+    destruct (fetch_all st b) as [cb|] eqn:Fb; cbn; rewrite M, Cm, F, Pc, Bl, Cb, Fb; cbn;
+      rewrite ?N.eqb_refl, ?desc_eqb_refl; reflexivity.
+  - cbn. rewrite M, Cm, F, Pc, Bl. cbn. now rewrite N.eqb_refl.
+Qed.
+
+Lemma step_sim : forall st o, Inv st -> wf_op o = true ->
+  rcheck st o (snd (step st o)) = true /\ radv st o (snd (step st o)) = fst (step st o) /\
+  Inv (fst (step st o)) /\ grows st (fst (step st o)).
+Proof.
+  intros st o I W. destruct o as [p|d c|q|d].
+  - apply push_sig_sim; auto.
+  - apply raw_sim; auto.
+  - split; [apply list_sim; auto|]. cbn [step].
+    destruct (list_sigs st q) as [[its|e] lg]; cbn [fst snd radv];
+      (split; [reflexivity|split; [exact I|apply grows_refl]]).
+  - split; [apply fetch_sim|]. cbn [step].
+    destruct (fetch_sig st d) as [[b bd|e] lg]; cbn [fst snd radv];
+      (split; [reflexivity|split; [exact I|apply grows_refl]]).
+Qed.
+
+Lemma run_ops_cons : forall st o ops,
+  run_ops st (o :: ops) =
+  (fst (run_ops (fst (step st o)) ops), snd (step st o) :: snd (run_ops (fst (step st o)) ops)).
+Proof.
+  intros. cbn [run_ops]. destruct (step st o) as [st1 r]. cbn [fst snd].
+  destruct (run_ops st1 ops) as [st2 rs]. reflexivity.
+Qed.
+
+Lemma orc_run : forall ops st, Inv st -> forallb wf_op ops = true ->
+  orc st ops (snd (run_ops st ops)) = true.
+Proof.
+  induction ops as [|o ops IH]; intros st I W; [reflexivity|].
+  cbn [forallb] in W. apply andb_true_iff in W as [W1 W2].
+  rewrite run_ops_cons. cbn [snd orc].
+  destruct (step_sim st o I W1) as (H1 & H2 & H3 & _).
+  rewrite H1, H2. cbn [andb]. apply IH; auto.
+Qed.
+
+Theorem model_meets_oracle : forall i, wf i = true -> spec_ok i (model i) = true.
+Proof. intros i W. unfold spec_ok, model. apply orc_run; [apply Inv_nil|exact W]. Qed.
+
+(* reachable stores *)
+Definition state_after (ops : list op) : state := fst (run_ops [] ops).
+
+Lemma run_inv : forall ops st, Inv st -> forallb wf_op ops = true ->
+  Inv (fst (run_ops st ops)) /\ grows st (fst (run_ops st ops)).
+Proof.
+  induction ops as [|o ops IH]; intros st I W; [split; [exact I|apply grows_refl]|].
+  cbn [forallb] in W. apply andb_true_iff in W as [W1 W2].
+  rewrite run_ops_cons. cbn [fst].
+  destruct (step_sim st o I W1) as (_ & _ & H3 & H4).
+  destruct (IH _ H3 W2) as [A B]. split; auto. eapply grows_trans; eauto.
+Qed.
+
+Lemma state_after_inv : forall ops, forallb wf_op ops = true -> Inv (state_after ops).
+Proof. intros ops W. apply (run_inv ops [] Inv_nil W). Qed.
+
+Lemma run_ops_app : forall a b st,
+  fst (run_ops st (a ++ b)) = fst (run_ops (fst (run_ops st a)) b).
+Proof.
+  induction a as [|o a IH]; intros b st; [reflexivity|].
+  cbn [app]. rewrite !run_ops_cons. cbn [fst]. apply IH.
+Qed.
+
+(* ---------- what a push does, case by case ---------- *)
+Definition env_entry (p : push) : entry := mk_entry (blob_desc p) (p_bc p).
+Definition cfg_entry : entry := mk_entry cfg_desc cfg_content.
+Definition man_entry (p : push) (a : ann) : entry :=
+  mk_entry (man_desc p) (man_content (p_msz p) (p_subj p) (blob_desc p) a).
+
+Lemma push_sig_cases : forall st p,
+  let st2 := add_absent (env_entry p :: st) cfg_entry in
+  (lookup_dg st (p_bdg p) <> None /\ push_sig st p = (st, RPush 1 d0 d0 [])) \/
+  (lookup_dg st (p_bdg p) = None /\ successors (d_mt (blob_desc p)) (p_bc p) = None /\
+   push_sig st p = (env_entry p :: st, RPush 3 d0 d0 [])) \/
+  (lookup_dg st (p_bdg p) = None /\ ensure_created (p_ann p) (p_now p) (p_cvalid p) = None /\
+   push_sig st p = (st2, RPush 4 d0 d0 [])) \/
+  (lookup_dg st (p_bdg p) = None /\ exists a',
+   ensure_created (p_ann p) (p_now p) (p_cvalid p) = Some a' /\
+   push_sig st p = (add_absent st2 (man_entry p a'), RPush 0 (blob_desc p) (man_desc p) a')).
+Proof.
+  intros st p st2. unfold push_sig.
+  destruct (push1_spec st (blob_desc p) (p_bc p)) as [(L & ->)|[(_ & S & _)|[(L & S & U & ->)|(L & S & U & ->)]]].
+  - left. split; [exact L|reflexivity].
+  - exfalso. apply S. reflexivity.
+  - right; left. repeat split; auto.
+  - right; right. change (d_dg (blob_desc p)) with (p_bdg p) in L.
+    fold (env_entry p).
+    assert (TAIL : forall s2, s2 = st2 ->
+      let res := match ensure_created (p_ann p) (p_now p) (p_cvalid p) with
+           | Some a' =>
+               let (st3, r3) := push1 s2 (man_desc p) (man_content (p_msz p) (p_subj p) (blob_desc p) a') in
+               match r3 with
+               | POk | PExists => (st3, RPush 0 (blob_desc p) (man_desc p) a')
+               | _ => (st3, RPush (pres_code r3) d0 d0 [])
+               end
+           | None => (s2, RPush 4 d0 d0 [])
+           end in
+      (lookup_dg st (p_bdg p) = None /\ ensure_created (p_ann p) (p_now p) (p_cvalid p) = None /\
+       res = (st2, RPush 4 d0 d0 [])) \/
+      (lookup_dg st (p_bdg p) = None /\ exists a',
+       ensure_created (p_ann p) (p_now p) (p_cvalid p) = Some a' /\
+       res = (add_absent st2 (man_entry p a'), RPush 0 (blob_desc p) (man_desc p) a'))).
+    { intros s2 ->. destruct (ensure_created (p_ann p) (p_now p) (p_cvalid p)) as [a'|] eqn:EC.
+      - right. split; [exact L|]. exists a'. split; [reflexivity|].
+        destruct (push1_spec st2 (man_desc p) (man_content (p_msz p) (p_subj p) (blob_desc p) a'))
+          as [(LM & ->)|[(_ & SM & _)|[(_ & _ & UM & _)|(LM & SM & UM & ->)]]].
+        + cbn iota. f_equal. symmetry. apply add_absent_some. exact LM.
+        + exfalso. apply SM. reflexivity.
+        + discriminate UM.
+        + cbn iota. f_equal. symmetry. apply add_absent_none. exact LM.
+      - left. auto. }
+    destruct (lookup_dg (env_entry p :: st) DG_EMPTY) eqn:LC.
+    + apply (TAIL (env_entry p :: st)). subst st2. symmetry. apply add_absent_some.
+      change (dg_of cfg_entry) with DG_EMPTY. rewrite LC. discriminate.
+    + rewrite (cfg_push _ LC). apply (TAIL (cfg_entry :: env_entry p :: st)).
+      subst st2. symmetry. apply add_absent_none. exact LC.
+Qed.
+
+Lemma add_absent_in : forall st e x, In x (add_absent st e) -> In x st \/ x = e.
+Proof.
+  intros st e x H. unfold add_absent in H. destruct (lookup_dg st (d_dg (e_d e))); auto.
+  destruct H; auto.
+Qed.
+
+Lemma in_add_absent : forall st e x, In x st -> In x (add_absent st e).
+Proof.
+  intros st e x H. unfold add_absent. destruct (lookup_dg st (d_dg (e_d e))); auto. right; auto.
+Qed.
+
+(* ---------- provenance: every stored content was put by an operation ---------- *)
+Definition entry_of_op (o : op) (e : entry) : Prop :=
+  match o with
+  | OpRaw d c => e = mk_entry d c
+  | OpPush p =>
+      e = env_entry p \/ e = cfg_entry \/
+      exists a', ensure_created (p_ann p) (p_now p) (p_cvalid p) = Some a' /\ e = man_entry p a'
+  | _ => False
+  end.
+
+Lemma step_prov : forall st o e, In e (fst (step st o)) -> In e st \/ entry_of_op o e.
+Proof.
+  intros st o e H. destruct o as [p|d c|q|d].
+  - cbn [step] in H.
+    destruct (push_sig_cases st p) as [(_ & E)|[(_ & _ & E)|[(_ & _ & E)|(_ & a' & EC & E)]]];
+      rewrite E in H; cbn [fst] in H.
+    + auto.
+    + destruct H as [<-|H]; [right; left; reflexivity|auto].
+    + apply add_absent_in in H as [[<-|H]| ->]; [right; left; reflexivity|auto|right; right; left; reflexivity].
+    + apply add_absent_in in H as [H| ->].
+      * apply add_absent_in in H as [[<-|H]| ->]; [right; left; reflexivity|auto|right; right; left; reflexivity].
+      * right. right. right. exists a'. auto.
+  - cbn [step] in H. destruct (push1_ext st d c) as (l & E & [Hl|Hl]); subst l.
+    + destruct (push1 st d c) as [s r]. cbn in *. subst s. auto.
+    + destruct (push1 st d c) as [s r]. cbn in *. subst s. destruct H as [<-|H]; [right; reflexivity|auto].
+  - cbn [step] in H. destruct (list_sigs st q) as [[its|er] lg]; cbn in H; auto.
+  - cbn [step] in H. destruct (fetch_sig st d) as [[b bd|er] lg]; cbn in H; auto.
+Qed.
+
+Lemma run_prov : forall ops st e, In e (fst (run_ops st ops)) ->
+  In e st \/ exists o, In o ops /\ entry_of_op o e.
+Proof.
+  induction ops as [|o ops IH]; intros st e H; [left; exact H|].
+  rewrite run_ops_cons in H. cbn [fst] in H.
+  destruct (IH _ _ H) as [H1|(o' & Ho & He)].
+  - destruct (step_prov st o e H1) as [H2|H2]; [left; exact H2|].
+    right. exists o. split; [left; reflexivity|exact H2].
+  - right. exists o'. split; [right; exact Ho|exact He].
+Qed.
+
+Theorem provenance : forall ops e, In e (state_after ops) -> exists o, In o ops /\ entry_of_op o e.
+Proof. intros ops e H. destruct (run_prov ops [] e H) as [[]|H']; exact H'. Qed.
+
+(* ---------- the listing, in words ---------- *)
+(* e is a stored, indexed manifest of media type image / artifact manifest that
+   parses, whose subject is q (equal on media type, digest and size) and whose
+   artifact type (config media type, resp. artifactType) is notation *)
+Definition sig_manifest_of (q : desc) (e : entry) : Prop :=
+  e_succ e <> None /\
+  (d_mt (e_d e) = MT_IMAGE \/ d_mt (e_d e) = MT_ARTIFACT) /\
+  parsed (d_mt (e_d e)) (e_c e) = true /\
+  m_subject (c_m (e_c e)) = Some q /\
+  atype_of (d_mt (e_d e)) (e_c e) = MT_NOTATION.
+
+Lemma sig_entry_for_iff : forall q e, sig_entry_for q e = true <-> sig_manifest_of q e.
+Proof.
+  intros q e. unfold sig_entry_for, sig_manifest_of. split.
+  - destruct (e_succ e); [|discriminate]. intros H.
+    apply andb_true_iff in H as [H Ha]. apply andb_true_iff in H as [H Hs].
+    apply andb_true_iff in H as [Hm Hp].
+    destruct (m_subject (c_m (e_c e))) as [s|]; [|discriminate].
+    apply desc_eqb_eq in Hs. subst s. apply N.eqb_eq in Ha.
+    split; [discriminate|]. split; [|auto].
+    apply sigmt_cases in Hm. tauto.
+  - intros (H1 & H2 & H3 & H4 & H5). destruct (e_succ e); [|congruence].
+    rewrite H3, H4, H5, desc_eqb_refl, N.eqb_refl.
+    destruct H2 as [-> | ->]; reflexivity.
+Qed.
+
+Lemma NoDup_map_filter {A B} (g : A -> B) (f : A -> bool) : forall l,
+  NoDup (map g l) -> NoDup (map g (filter f l)).
+Proof.
+  induction l as [|x l IH]; intros H; [constructor|]. cbn in *. inversion H; subst.
+  destruct (f x); cbn; auto. constructor; auto.
+  intros Hin. apply H2. apply in_map_iff in Hin as (y & Hy & Hi). apply filter_In in Hi as [Hi _].
+  apply in_map_iff. exists y. auto.
+Qed.
+
+Lemma NoDup_map_inj_in {A B} (g : A -> B) : forall l x y,
+  NoDup (map g l) -> In x l -> In y l -> g x = g y -> x = y.
+Proof.
+  induction l as [|a l IH]; intros x y ND Hx Hy E; [destruct Hx|].
+  cbn in ND. inversion ND; subst. destruct Hx as [->|Hx], Hy as [->|Hy]; auto.
+  - exfalso. apply H1. rewrite E. apply in_map. exact Hy.
+  - exfalso. apply H1. rewrite <- E. apply in_map. exact Hx.
+Qed.
+
+Definition item_dg (it : item) : N := d_dg (i_d it).
+
+Lemma expected_in : forall st q it,
+  In it (expected st q) <-> exists e, In e st /\ sig_manifest_of q e /\ it = item_of e.
+Proof.
+  intros st q it. unfold expected. rewrite in_map_iff. split.
+  - intros (e & <- & H). apply filter_In in H as [Hi Hs]. exists e. rewrite <- sig_entry_for_iff. auto.
+  - intros (e & Hi & Hs & ->). exists e. split; auto. apply filter_In. rewrite sig_entry_for_iff. auto.
+Qed.
+
+Lemma expected_nodup : forall st q, NoDup (map dg_of st) -> NoDup (map item_dg (expected st q)).
+Proof.
+  intros st q ND. unfold expected. rewrite map_map.
+  change (fun x => item_dg (item_of x)) with dg_of. apply NoDup_map_filter. exact ND.
+Qed.
+
+Definition oversize_referrer (q : desc) (e : entry) : Prop :=
+  (d_mt (e_d e) = MT_IMAGE \/ d_mt (e_d e) = MT_ARTIFACT) /\
+  (exists ss, e_succ e = Some ss /\ In q ss) /\ (capM < d_sz (e_d e))%Z.
+
+Lemma oversize_ref_iff : forall q e, oversize_ref q e = true <-> oversize_referrer q e.
+Proof.
+  intros q e. unfold oversize_ref, oversize_referrer, refers. rewrite !andb_true_iff, Z.ltb_lt. split.
+  - intros [[Hm Hr] Hs]. apply sigmt_cases in Hm. split; [tauto|]. split; auto.
+    destruct (e_succ e) as [ss|]; [|discriminate]. exists ss. split; auto.
+    apply existsb_exists in Hr as (x & Hx & He). apply desc_eqb_eq in He. now subst.
+  - intros (Hm & (ss & Hs & Hq) & Hz). split; [split|]; auto.
+    + unfold is_sigmt. destruct Hm as [-> | ->]; reflexivity.
+    + rewrite Hs. apply existsb_exists. exists q. split; auto. apply desc_eqb_refl.
+Qed.
+
+(* C19_refines, first half: on every reachable store a listing either fails
+   because a referrer of the subject exceeds the manifest cap, or is exactly
+   the stored signature manifests of that subject, each once *)
+Theorem listing_exact : forall ops q, forallb wf_op ops = true ->
+  let st := state_after ops in
+  ((exists e, In e st /\ oversize_referrer q e) -> fst (list_sigs st q) = LErr 1) /\
+  (~ (exists e, In e st /\ oversize_referrer q e) ->
+     exists its, fst (list_sigs st q) = LOk its /\
+       NoDup (map item_dg its) /\
+       forall it, In it its <-> exists e, In e st /\ sig_manifest_of q e /\ it = item_of e).
+Proof.
+  intros ops q W st. pose proof (state_after_inv ops W) as I. fold st in I.
+  rewrite (list_sigs_spec st q I). split.
+  - intros (e & Hi & Ho). apply oversize_ref_iff in Ho.
+    assert (X : existsb (oversize_ref q) st = true) by (apply existsb_exists; eauto). now rewrite X.
+  - intros N. destruct (existsb (oversize_ref q) st) eqn:X.
+    + exfalso. apply N. apply existsb_exists in X as (e & Hi & Ho). apply oversize_ref_iff in Ho. eauto.
+    + exists (expected st q). split; [reflexivity|]. split.
+      * apply expected_nodup. apply I.
+      * apply expected_in.
+Qed.
+
+(* every listed manifest was put there by a PushSignature for that subject or
+   by a direct push of a signature manifest of that subject (the third case is
+   the degenerate one of an envelope that is itself pushed under a manifest
+   media type and reads as a signature manifest of the subject) *)
+Theorem listing_sound : forall ops q its lg it, forallb wf_op ops = true ->
+  list_sigs (state_after ops) q = (LOk its, lg) -> In it its ->
+  i_at it = MT_NOTATION /\
+  exists o, In o ops /\
+    match o with
+    | OpPush p =>
+        (p_subj p = q /\ i_d it = man_desc p /\
+         ensure_created (p_ann p) (p_now p) (p_cvalid p) = Some (i_ann it)) \/
+        (i_d it = blob_desc p /\ sig_manifest_of q (env_entry p))
+    | OpRaw d c => i_d it = d /\ sig_manifest_of q (mk_entry d c) /\ i_ann it = m_ann (c_m c)
+    | _ => False
+    end.
+Proof.
+  intros ops q its lg it W HL Hin.
+  pose proof (state_after_inv ops W) as I.
+  pose proof (list_sigs_spec (state_after ops) q I) as HS. rewrite HL in HS. cbn [fst] in HS.
+  destruct (existsb (oversize_ref q) (state_after ops)); [discriminate|]. inversion HS; subst its.
+  apply expected_in in Hin as (e & Hi & Hs & ->).
+  split; [apply Hs|].
+  destruct (provenance ops e Hi) as (o & Ho & He). exists o. split; [exact Ho|].
+  destruct o as [p|d c|q'|d]; cbn in He; try contradiction.
+  - destruct He as [->|[->|(a' & EC & ->)]].
+    + right. split; [reflexivity|exact Hs].
+    + exfalso. destruct Hs as (_ & _ & _ & Hsub & _). cbn in Hsub. discriminate.
+    + left. destruct Hs as (_ & _ & _ & Hsub & _). cbn in Hsub. inversion Hsub. cbn. auto.
+  - subst e. cbn. auto.
+Qed.
+
+(* ---------- a pushed signature is listed for its subject and round-trips ---------- *)
+Lemma ensure_created_spec : forall pa now v a, ensure_created pa now v = Some a ->
+  (forall kv, In kv pa -> In kv a) /\ (forall kv, In kv a -> In kv pa \/ kv = (K_CREATED, now)).
+Proof.
+  intros pa now v a H. unfold ensure_created in H. destruct (has_key K_CREATED pa).
+  - destruct v; inversion H; subst. split; auto.
+  - inversion H; subst. split; intros kv Hk; [right; exact Hk|]. destruct Hk; auto.
+Qed.
+
+Lemma grows_in : forall st st1 e, grows st st1 -> In e st -> In e st1.
+Proof. intros st st1 e [l ->] H. apply in_or_app. right. exact H. Qed.
+
+Lemma man_entry_sig : forall p a, sig_manifest_of (p_subj p) (man_entry p a).
+Proof.
+  intros p a. unfold sig_manifest_of, man_entry, mk_entry. cbn.
+  split; [discriminate|]. split; [left; reflexivity|]. auto.
+Qed.
+
+Lemma lookup_cons : forall e st g,
+  lookup_dg (e :: st) g = if dg_of e =? g then Some e else lookup_dg st g.
+Proof. reflexivity. Qed.
+
+Lemma lookup_add_absent_none : forall st e g,
+  lookup_dg st g = None -> dg_of e <> g -> lookup_dg (add_absent st e) g = None.
+Proof.
+  intros st e g H N. unfold add_absent. destruct (lookup_dg st (d_dg (e_d e))); auto.
+  rewrite lookup_cons. apply N.eqb_neq in N. now rewrite N.
+Qed.
+
+(* the store after: ops1, then a PushSignature p that reported success on a
+   manifest digest not yet in the store, then any ops2 *)
+Theorem push_listed : forall ops1 p ops2 st1' bd md a,
+  forallb wf_op (ops1 ++ OpPush p :: ops2) = true ->
+  push_sig (state_after ops1) p = (st1', RPush 0 bd md a) ->
+  lookup_dg (state_after ops1) (p_mdg p) = None -> p_mdg p <> p_bdg p -> p_mdg p <> DG_EMPTY ->
+  let st := state_after (ops1 ++ OpPush p :: ops2) in
+  (* what was reported *)
+  bd = blob_desc p /\ md = man_desc p /\
+  (forall kv, In kv (p_ann p) -> In kv a) /\
+  (forall kv, In kv a -> In kv (p_ann p) \/ kv = (K_CREATED, p_now p)) /\
+  (* listed for its subject, with these annotations, unless the listing is refused *)
+  (forall its lg, list_sigs st (p_subj p) = (LOk its, lg) -> In (I md MT_NOTATION a) its) /\
+  (* and the envelope comes back: same digest (bytes), media type and size *)
+  ((p_msz p <= capM)%Z -> (c_sz (p_bc p) <= capB)%Z ->
+     fetch_sig st md = (FOk (p_bdg p) bd, [p_mdg p; p_bdg p])).
+Proof.
+  intros ops1 p ops2 st1' bd md a W HP Lm N1 N2 st.
+  rewrite forallb_app in W. apply andb_true_iff in W as [W1 W2].
+  assert (Wp : wf_op (OpPush p) = true) by (cbn [forallb] in W2; apply andb_true_iff in W2; tauto).
+  assert (W3 : forallb wf_op ops2 = true) by (cbn [forallb] in W2; apply andb_true_iff in W2; tauto).
+  pose proof (state_after_inv ops1 W1) as I1.
+  assert (Est : st = fst (run_ops st1' ops2)).
+  { unfold st, state_after. rewrite run_ops_app, run_ops_cons. cbn [fst step].
+    fold (state_after ops1). now rewrite HP. }
+  set (s1 := state_after ops1) in *.
+  destruct (push_sig_sim s1 p I1 Wp) as (_ & _ & I1' & _). rewrite HP in I1'. cbn [fst] in I1'.
+  destruct (run_inv ops2 st1' I1' W3) as [I G]. rewrite <- Est in I, G.
+  destruct (push_sig_cases s1 p) as [(_ & E)|[(_ & _ & E)|[(_ & _ & E)|(Lb & a' & EC & E)]]];
+    rewrite HP in E; inversion E; subst st1' bd md a'.
+  clear E.
+  assert (Lm2 : lookup_dg (add_absent (env_entry p :: s1) cfg_entry) (dg_of (man_entry p a)) = None).
+  { apply lookup_add_absent_none.
+    - rewrite lookup_cons. change (dg_of (env_entry p)) with (p_bdg p).
+      change (dg_of (man_entry p a)) with (p_mdg p).
+      assert (X : (p_bdg p =? p_mdg p) = false) by (apply N.eqb_neq; congruence). rewrite X. exact Lm.
+    - change (dg_of cfg_entry) with DG_EMPTY. change (dg_of (man_entry p a)) with (p_mdg p). congruence. }
+  rewrite (add_absent_none _ _ Lm2) in G.
+  assert (Hem : In (man_entry p a) st) by (eapply grows_in; [exact G|left; reflexivity]).
+  assert (Heb : In (env_entry p) st).
+  { eapply grows_in; [exact G|]. right. apply in_add_absent. left. reflexivity. }
+  destruct (ensure_created_spec _ _ _ _ EC) as [A1 A2].
+  split; [reflexivity|]. split; [reflexivity|]. split; [exact A1|]. split; [exact A2|]. split.
+  - intros its lg HL. pose proof (list_sigs_spec st (p_subj p) I) as HS. rewrite HL in HS. cbn [fst] in HS.
+    destruct (existsb (oversize_ref (p_subj p)) st); [discriminate|]. inversion HS; subst its.
+    apply expected_in. exists (man_entry p a). split; [exact Hem|]. split; [apply man_entry_sig|reflexivity].
+  - intros Cm Cb. unfold fetch_sig.
+    change (is_sigmt (d_mt (man_desc p))) with true. cbn [negb].
+    change (d_sz (man_desc p)) with (p_msz p).
+    apply Z.ltb_ge in Cm. rewrite Cm.
+    pose proof (fetch_all_entry st (man_entry p a) I Hem) as F1.
+    change (e_d (man_entry p a)) with (man_desc p) in F1. rewrite F1.
+    change (parsed (d_mt (man_desc p)) (e_c (man_entry p a))) with true. cbn [negb].
+    change (blobs_of (d_mt (man_desc p)) (e_c (man_entry p a))) with [blob_desc p].
+    cbv iota beta.
+    change (d_sz (blob_desc p)) with (c_sz (p_bc p)).
+    apply Z.ltb_ge in Cb. rewrite Cb.
+    pose proof (fetch_all_entry st (env_entry p) I Heb) as F2.
+    change (e_d (env_entry p)) with (blob_desc p) in F2. rewrite F2. reflexivity.
+Qed.
+
+(* ---------- isolation ---------- *)
+(* a stored content that is not a signature manifest of q is not in q's listing *)
+Theorem isolation : forall ops q its lg e, forallb wf_op ops = true ->
+  list_sigs (state_after ops) q = (LOk its, lg) -> In e (state_after ops) ->
+  ~ sig_manifest_of q e -> ~ In (dg_of e) (map item_dg its).
+Proof.
+  intros ops q its lg e W HL Hi Hn Hin.
+  pose proof (state_after_inv ops W) as I.
+  pose proof (list_sigs_spec (state_after ops) q I) as HS. rewrite HL in HS. cbn [fst] in HS.
+  destruct (existsb (oversize_ref q) (state_after ops)); [discriminate|]. inversion HS; subst its.
+  apply in_map_iff in Hin as (it & Hd & Hit). apply expected_in in Hit as (e' & Hi' & Hs' & ->).
+  assert (e' = e).
+  { apply (NoDup_map_inj_in dg_of (state_after ops)); auto. apply I. }
+  subst e'. auto.
+Qed.
+
+Lemma not_sig_other_subject : forall q e s,
+  m_subject (c_m (e_c e)) = Some s ->
+  (d_dg s <> d_dg q \/ d_sz s <> d_sz q \/ d_mt s <> d_mt q) -> ~ sig_manifest_of q e.
+Proof.
+  intros q e s Hs Hd (_ & _ & _ & Hq & _). rewrite Hs in Hq. inversion Hq; subst. intuition congruence.
+Qed.
+
+Lemma not_sig_no_subject : forall q e, m_subject (c_m (e_c e)) = None -> ~ sig_manifest_of q e.
+Proof. intros q e Hs (_ & _ & _ & Hq & _). congruence. Qed.
+
+Lemma not_sig_other_type : forall q e,
+  atype_of (d_mt (e_d e)) (e_c e) <> MT_NOTATION -> ~ sig_manifest_of q e.
+Proof. intros q e Ha (_ & _ & _ & _ & H). congruence. Qed.
+
+Lemma not_sig_other_mt : forall q e,
+  d_mt (e_d e) <> MT_IMAGE -> d_mt (e_d e) <> MT_ARTIFACT -> ~ sig_manifest_of q e.
+Proof. intros q e H1 H2 (_ & H & _). tauto. Qed.
+
+(* ---------- refusals, on any store ---------- *)
+Theorem fetch_refused_mt : forall st d, is_sigmt (d_mt d) = false -> fetch_sig st d = (FErr 1, []).
+Proof. intros st d H. unfold fetch_sig. now rewrite H. Qed.
+
+Theorem fetch_refused_manifest_cap : forall st d, is_sigmt (d_mt d) = true -> (capM < d_sz d)%Z ->
+  fetch_sig st d = (FErr 2, []).
+Proof. intros st d H C. unfold fetch_sig. rewrite H. apply Z.ltb_lt in C. now rewrite C. Qed.
+
+Theorem fetch_refused_count : forall st d c,
+  is_sigmt (d_mt d) = true -> (d_sz d <= capM)%Z -> fetch_all st d = Some c ->
+  parsed (d_mt d) c = true -> List.length (blobs_of (d_mt d) c) <> 1%nat ->
+  fetch_sig st d = (FErr 5, [d_dg d]).
+Proof.
+  intros st d c H C F Pc L. unfold fetch_sig. rewrite H. apply Z.ltb_ge in C. rewrite C, F, Pc. cbn [negb].
+  destruct (blobs_of (d_mt d) c) as [|b [|b2 bs]]; auto. exfalso. apply L. reflexivity.
+Qed.
+
+Theorem fetch_refused_blob_cap : forall st d c b,
+  is_sigmt (d_mt d) = true -> (d_sz d <= capM)%Z -> fetch_all st d = Some c ->
+  parsed (d_mt d) c = true -> blobs_of (d_mt d) c = [b] -> (capB < d_sz b)%Z ->
+  fetch_sig st d = (FErr 6, [d_dg d]).
+Proof.
+  intros st d c b H C F Pc L Cb. unfold fetch_sig. rewrite H. apply Z.ltb_ge in C. rewrite C, F, Pc, L. cbn [negb].
+  apply Z.ltb_lt in Cb. now rewrite Cb.
+Qed.
+
+(* a successful fetch: everything was within the caps, the manifest had exactly
+   one blob, the descriptor returned is that blob's, the bytes are those stored
+   under its digest with its size, and only these two contents were fetched *)
+Theorem fetch_ok_inv : forall st d blob bd lg, fetch_sig st d = (FOk blob bd, lg) ->
+  is_sigmt (d_mt d) = true /\ (d_sz d <= capM)%Z /\
+  exists c, fetch_all st d = Some c /\ parsed (d_mt d) c = true /\ blobs_of (d_mt d) c = [bd] /\
+    (d_sz bd <= capB)%Z /\ blob = d_dg bd /\ lg = [d_dg d; d_dg bd] /\
+    exists cb, fetch_all st bd = Some cb /\ c_sz cb = d_sz bd.
+Proof.
+  intros st d blob bd lg H. unfold fetch_sig in H.
+  destruct (is_sigmt (d_mt d)) eqn:M; cbn [negb] in H; [|discriminate].
+  destruct (capM <? d_sz d)%Z eqn:Cm; [discriminate|]. apply Z.ltb_ge in Cm.
+  destruct (fetch_all st d) as [c|] eqn:F; [|discriminate].
+  destruct (parsed (d_mt d) c) eqn:Pc; cbn [negb] in H; [|discriminate].
+  destruct (blobs_of (d_mt d) c) as [|b [|b2 bs]] eqn:Bl; try discriminate.
+  destruct (capB <? d_sz b)%Z eqn:Cb; [discriminate|]. apply Z.ltb_ge in Cb.
+  destruct (fetch_all st b) as [cb|] eqn:Fb; [|discriminate]. inversion H; subst.
+  split; auto. split; auto. exists c. repeat split; auto. exists cb. split; auto.
+  apply fetch_all_some in Fb as (e & _ & _ & <- & Hs & _). auto.
+Qed.
+
+(* ---------- the listing loop, node by node (any store, any node list) ---------- *)
+Definition v_err (st : state) (q n : desc) : bool :=
+  match fst (visit st q n) with VErr _ => true | _ => false end.
+Definition v_keep (st : state) (q n : desc) : list item :=
+  match fst (visit st q n) with VKeep it => [it] | _ => [] end.
+
+Lemma list_loop_ok : forall st q ns, existsb (v_err st q) ns = false ->
+  fst (list_loop st q ns) = LOk (flat_map (v_keep st q) ns).
+Proof.
+  intros st q. induction ns as [|n ns IH]; intros H; [reflexivity|].
+  cbn [existsb] in H. apply orb_false_iff in H as [H1 H2]. specialize (IH H2).
+  cbn [list_loop flat_map]. unfold v_err in H1. unfold v_keep at 1.
+  destruct (visit st q n) as [[|it|e] lg]; cbn [fst] in *; try discriminate.
+  - destruct (list_loop st q ns) as [r lg']. cbn in *. now subst.
+  - destruct (list_loop st q ns) as [r lg']. cbn in *. subst. reflexivity.
+Qed.
+
+Lemma list_loop_err : forall st q ns, existsb (v_err st q) ns = true ->
+  exists e, fst (list_loop st q ns) = LErr e.
+Proof.
+  intros st q. induction ns as [|n ns IH]; intros H; [discriminate|].
+  cbn [existsb] in H. cbn [list_loop]. unfold v_err at 1 in H.
+  destruct (visit st q n) as [[|it|e] lg]; cbn [fst orb] in *.
+  - destruct (IH H) as [e He]. destruct (list_loop st q ns) as [r lg']. cbn in *. eauto.
+  - destruct (IH H) as [e He]. destruct (list_loop st q ns) as [r lg']. cbn in *. subst. eauto.
+  - eauto.
+Qed.
+
+Lemma existsb_perm {A} (f : A -> bool) : forall l l', Permutation l l' -> existsb f l = existsb f l'.
+Proof.
+  intros l l' HP. destruct (existsb f l) eqn:E1, (existsb f l') eqn:E2; auto.
+  - apply existsb_exists in E1 as (x & Hx & Hf).
+    assert (X : existsb f l' = true) by (apply existsb_exists; exists x; split; auto; eapply Permutation_in; eauto).
+    congruence.
+  - apply existsb_exists in E2 as (x & Hx & Hf).
+    assert (X : existsb f l = true).
+    { apply existsb_exists; exists x; split; auto. eapply Permutation_in; [apply Permutation_sym; eauto|auto]. }
+    congruence.
+Qed.
+
+(* the order in which Predecessors hands out the nodes (a Go map iteration) is
+   immaterial: failure is preserved and successful listings are permutations *)
+Theorem list_loop_perm : forall st q ns ns', Permutation ns ns' ->
+  ((exists e, fst (list_loop st q ns) = LErr e) <-> (exists e, fst (list_loop st q ns') = LErr e)) /\
+  (forall its, fst (list_loop st q ns) = LOk its ->
+     exists its', fst (list_loop st q ns') = LOk its' /\ Permutation its its').
+Proof.
+  intros st q ns ns' HP. pose proof (existsb_perm (v_err st q) ns ns' HP) as EP.
+  destruct (existsb (v_err st q) ns) eqn:E1.
+  - destruct (list_loop_err st q ns E1) as [e He]. symmetry in EP.
+    destruct (list_loop_err st q ns' EP) as [e' He']. split.
+    + split; eauto.
+    + intros its H. congruence.
+  - symmetry in EP. rewrite (list_loop_ok st q ns E1), (list_loop_ok st q ns' EP). split.
+    + split; intros [e He]; discriminate.
+    + intros its H. inversion H; subst. eexists; split; [reflexivity|].
+      apply Permutation_flat_map; auto.
+Qed.
+
+(* a referrer above the manifest cap makes the listing fail, and no content
+   above the cap is ever fetched by a listing *)
+Lemma visit_oversize : forall st q n, is_sigmt (d_mt n) = true -> (capM < d_sz n)%Z ->
+  visit st q n = (VErr 1, []).
+Proof. intros st q n M C. unfold visit. rewrite M. apply Z.ltb_lt in C. now rewrite C. Qed.
+
+Lemma visit_log : forall st q n g, In g (snd (visit st q n)) ->
+  g = d_dg n /\ is_sigmt (d_mt n) = true /\ (d_sz n <= capM)%Z.
+Proof.
+  intros st q n g H. unfold visit in H.
+  destruct (is_sigmt (d_mt n)) eqn:M; [|destruct H].
+  destruct (capM <? d_sz n)%Z eqn:C; [destruct H|]. apply Z.ltb_ge in C.
+  assert (X : In g [d_dg n]).
+  { destruct (fetch_all st n) as [c|]; [|exact H].
+    destruct (parsed (d_mt n) c); cbn [negb] in H; [|exact H].
+    destruct (m_subject (c_m c)) as [s|]; [|exact H].
+    destruct (desc_eqb s q); cbn [negb] in H; [|exact H].
+    destruct (atype_of (d_mt n) c =? MT_NOTATION); exact H. }
+  destruct X as [<-|[]]. auto.
+Qed.
+
+Lemma list_loop_log_any : forall st q ns g, In g (snd (list_loop st q ns)) ->
+  exists n, In n ns /\ g = d_dg n /\ is_sigmt (d_mt n) = true /\ (d_sz n <= capM)%Z.
+Proof.
+  intros st q. induction ns as [|n ns IH]; intros g H; [destruct H|].
+  cbn [list_loop] in H. destruct (visit st q n) as [v lg] eqn:V.
+  assert (HV : forall x, In x lg -> exists m, In m (n :: ns) /\ x = d_dg m /\ is_sigmt (d_mt m) = true /\ (d_sz m <= capM)%Z).
+  { intros x Hx. exists n. split; [left; reflexivity|]. apply (visit_log st q n x). now rewrite V. }
+  assert (HR : forall x, In x (snd (list_loop st q ns)) ->
+             exists m, In m (n :: ns) /\ x = d_dg m /\ is_sigmt (d_mt m) = true /\ (d_sz m <= capM)%Z).
+  { intros x Hx. destruct (IH x Hx) as (m & Hm & R). exists m. split; [right; exact Hm|exact R]. }
+  destruct v as [|it|e].
+  - destruct (list_loop st q ns) as [r lg']. cbn [snd] in *. apply in_app_or in H as [H|H]; auto.
+  - destruct (list_loop st q ns) as [[its|e] lg']; cbn [snd] in *; apply in_app_or in H as [H|H]; auto.
+  - cbn [snd] in H. auto.
+Qed.
+
+Theorem list_refused : forall st q n,
+  In n (predecessors st q) -> is_sigmt (d_mt n) = true -> (capM < d_sz n)%Z ->
+  (exists e, fst (list_sigs st q) = LErr e) /\
+  (forall g, In g (snd (list_sigs st q)) ->
+     exists m, In m (predecessors st q) /\ g = d_dg m /\ (d_sz m <= capM)%Z).
+Proof.
+  intros st q n Hin M C. unfold list_sigs. split.
+  - apply list_loop_err. apply existsb_exists. exists n. split; auto.
+    unfold v_err. now rewrite (visit_oversize st q n M C).
+  - intros g Hg. destruct (list_loop_log_any st q _ g Hg) as (m & Hm & -> & _ & Hs). eauto.
+Qed.
+
+(* the caps the model uses are the constants of registry/repository.go *)
+Lemma caps_values : capM = 4194304%Z /\ capB = 33554432%Z.
+Proof. split; reflexivity. Qed.
+
+Theorem isolation_cases : forall ops q its lg e, forallb wf_op ops = true ->
+  list_sigs (state_after ops) q = (LOk its, lg) -> In e (state_after ops) ->
+  ( m_subject (c_m (e_c e)) = None
+    \/ (exists s, m_subject (c_m (e_c e)) = Some s /\
+                  (d_dg s <> d_dg q \/ d_sz s <> d_sz q \/ d_mt s <> d_mt q))
+    \/ atype_of (d_mt (e_d e)) (e_c e) <> MT_NOTATION
+    \/ (d_mt (e_d e) <> MT_IMAGE /\ d_mt (e_d e) <> MT_ARTIFACT) ) ->
+  ~ In (dg_of e) (map item_dg its).
+Proof.
+  intros ops q its lg e W HL Hi H. eapply isolation; eauto.
+  destruct H as [H|[(s & Hs & Hd)|[H|[H1 H2]]]].
+  - now apply not_sig_no_subject.
+  - eapply not_sig_other_subject; eauto.
+  - now apply not_sig_other_type.
+  - now apply not_sig_other_mt.
+Qed.
